@@ -86,10 +86,18 @@ func (c *FnCtx) execStmt(st *State, s ast.Stmt) []Outcome {
 					continue
 				}
 				if i < len(vs.Values) {
-					st.vars[obj] = c.coerce(st, c.evalExpr(st, vs.Values[i]), obj.Type())
+					if ov, ok := obj.(*types.Var); ok {
+						c.bindLocal(st, ov, c.coerce(st, c.evalExpr(st, vs.Values[i]), obj.Type()), nm.Pos())
+					} else {
+						st.vars[obj] = c.coerce(st, c.evalExpr(st, vs.Values[i]), obj.Type())
+					}
 				} else {
 					so := c.e.d.sortOf(obj.Type())
-					st.vars[obj] = Term{S: c.e.d.zero(so), Sort: so, T: obj.Type()}
+					if ov, ok := obj.(*types.Var); ok {
+						c.bindLocal(st, ov, Term{S: c.e.d.zero(so), Sort: so, T: obj.Type()}, nm.Pos())
+					} else {
+						st.vars[obj] = Term{S: c.e.d.zero(so), Sort: so, T: obj.Type()}
+					}
 				}
 			}
 		}
@@ -267,7 +275,7 @@ func (c *FnCtx) assignTo(st *State, l ast.Expr, v Term, pos token.Pos) {
 			c.heapSet(st, "PV:"+vv.Pkg().Path()+"."+vv.Name(), Term{S: v.S, Sort: v.Sort})
 			return
 		}
-		st.vars[vv] = v
+		c.bindLocal(st, vv, v, pos)
 	case *ast.SelectorExpr:
 		sel, ok := c.info.Selections[y]
 		if !ok || sel.Kind() != types.FieldVal {
@@ -611,6 +619,18 @@ func (c *FnCtx) execRange(st *State, x *ast.RangeStmt) []Outcome {
 		c.loopFrame(st, "assume", ord, x.Pos())
 		seen := c.freshSort(seenName, setSort)
 		extra := map[string]Term{seenName: seen, domName: dom0T}
+		// visible by name (seenN / domN) to nested loops' invariants and to hints inside the body
+		if c.loopGhostVars == nil {
+			c.loopGhostVars = map[string]*types.Var{}
+		}
+		for nm, tm := range extra {
+			gv := c.loopGhostVars[nm]
+			if gv == nil {
+				gv = types.NewVar(x.Pos(), c.fi.Pkg.Types, nm, types.Typ[types.Invalid])
+				c.loopGhostVars[nm] = gv
+			}
+			st.vars[gv] = tm
+		}
 		// seen ⊆ dom0
 		st.assume(fmt.Sprintf("(forall ((k %s)) (! (=> (select %s k) (select %s k)) :pattern ((select %s k))))", ks.SMT(), seen.S, domAtEntry, seen.S))
 		c.assumeInvariant(st, invs, extra)
